@@ -53,6 +53,7 @@ def leg_t(wd, tier, binary, verdict, stub=""):
         (c["counts"].get("concurrent_attempts", 0), c["counts"].get("concurrent_commits", 0), c["traces"]))
     d["conc"] = c
     d["ovf"] = H.leg_overflow(wd, binary, verdict, stub=stub)
+    d["gated"] = H.leg_gated(wd, binary, verdict, stub=stub)
     return d
 
 
@@ -80,9 +81,13 @@ def run(tier):
         "concurrent": {"traces": cc["traces"], "events": cc["events"], "accepted": cc["accepted"], "rejected": cc["rejected"],
                        "attempts": cc["counts"].get("concurrent_attempts", 0), "commits": cc["counts"].get("concurrent_commits", 0)},
         "driver_counts": tt["counts"],
+        "scheduled_concurrency": {"histories": tt["gated"]["counts"].get("gated_histories", 0), "events": tt["gated"]["events"],
+                                  "explained_in_lock_order": tt["gated"]["accepted"] - tt["gated"]["second_order"],
+                                  "explained_in_other_order": tt["gated"]["second_order"], "unexplained": tt["gated"]["rejected"],
+                                  "target_checks": tt["gated"]["counts"].get("gated_target_checks", 0)},
         "amount_overflow": {"traces": tt["ovf"]["traces"], "events": tt["ovf"]["events"], "accepted": tt["ovf"]["accepted"],
                             "rejected": tt["ovf"]["rejected"], "counts": tt["ovf"]["counts"]},
-        "evaluations": rr["steps"] + tt["ovf"]["events"] + tt["events"] + cc["events"], "distinct_nontrivial": rr["distinct"] + tt["traces"] + cc["traces"],
+        "evaluations": rr["steps"] + tt["gated"]["events"] + tt["ovf"]["events"] + tt["events"] + cc["events"], "distinct_nontrivial": rr["distinct"] + tt["traces"] + cc["traces"],
         "rule": "R: one evaluation per spec transition executed on the real host; T: one evaluation per recorded stream step (sequential) "
                 "or per recorded Contractor call (concurrent) validated by TLC; distinct by (action, arguments, resulting state) resp. by trace",
     }
